@@ -6,6 +6,7 @@ package sctp
 // /verif/spec. Nothing here decides a property: this file records, the specification judges.
 
 import (
+	"sync/atomic"
 	"bufio"
 	"context"
 	"crypto/sha256"
@@ -45,6 +46,26 @@ func (vfNullLogger) Errorf(string, ...any) {}
 type vfNullLoggerFactory struct{}
 
 func (vfNullLoggerFactory) NewLogger(string) logging.LeveledLogger { return vfNullLogger{} }
+
+// vfSlowLogger is a logger whose sink blocks: while armed, the next Tracef whose format contains `pat` sleeps
+// for `d` (real time) -- in the goroutine and under whatever locks the caller holds. Used only by the real-time
+// lock-order family: a log sink that blocks on I/O is ordinary environment behaviour.
+type vfSlowLogger struct {
+	vfNullLogger
+	pat   string
+	d     time.Duration
+	armed *int32
+}
+
+func (l vfSlowLogger) Tracef(format string, _ ...any) {
+	if strings.Contains(format, l.pat) && atomic.CompareAndSwapInt32(l.armed, 1, 0) {
+		time.Sleep(l.d)
+	}
+}
+
+type vfSlowLoggerFactory struct{ l vfSlowLogger }
+
+func (f vfSlowLoggerFactory) NewLogger(string) logging.LeveledLogger { return f.l }
 
 // ---------------------------------------------------------------- scripted randomness
 
@@ -128,6 +149,7 @@ func (t *vfTrace) close() {
 // ---------------------------------------------------------------- configuration
 
 type vfEpCfg struct {
+	SlowLog *vfSlowLogger // real-time families only
 	InitTSN    uint32  `json:"init_tsn"`
 	Tag        uint32  `json:"tag"`
 	IL         bool    `json:"il"`
@@ -313,6 +335,8 @@ type vfWorld struct {
 	rng      *rand.Rand
 	snapAll  bool
 	noSnap   bool
+	tsnRef   map[[2]uint32]vfFragRef // (sender, absolute TSN) -> fragment it carries
+	refUsed  map[[3]int]bool
 	rt       bool // real time, outside any synctest bubble (multi-writer family only)
 	stopped  bool
 	nWire    int
@@ -334,24 +358,58 @@ func (w *vfWorld) bases(from int) (tx, rx uint32) {
 	return w.ep[from].cfg.InitTSN, w.ep[1-from].cfg.InitTSN
 }
 
-func (w *vfWorld) identFrag(from int) func(sid int, payload []byte, b, e bool) (int, int) {
-	return func(sid int, payload []byte, b, e bool) (int, int) {
+func (w *vfWorld) identFrag(from int) func(sid int, payload []byte, b, e bool, tsn uint32, il bool, fsn int) (int, int) {
+	return func(sid int, payload []byte, b, e bool, tsn uint32, il bool, fsn int) (int, int) {
 		h := sha256.Sum256(payload)
 		w.mu.Lock()
 		defer w.mu.Unlock()
-		cands := w.frags[h]
-		best := vfFragRef{}
-		for _, c := range cands {
-			m := w.msgs[c.id]
-			if m.Ep != from || m.Sid != sid {
-				continue
-			}
-			if (c.idx == 0) != b {
-				continue
-			}
-			best = c
-			break
+		if w.tsnRef == nil {
+			w.tsnRef = map[[2]uint32]vfFragRef{}
+			w.refUsed = map[[3]int]bool{}
 		}
+		cands := []vfFragRef{}
+		for _, c := range w.frags[h] {
+			m := w.msgs[c.id]
+			if m.Ep != from || m.Sid != sid || (c.idx == 0) != b || (il && !b && c.idx != fsn) {
+				continue
+			}
+			cands = append(cands, c)
+		}
+		if len(cands) == 0 {
+			return 0, 0
+		}
+		key := [2]uint32{uint32(from), tsn}
+		// a retransmission carries what the TSN carried before
+		if r, ok := w.tsnRef[key]; ok {
+			for _, c := range cands {
+				if c == r {
+					return r.id, r.idx
+				}
+			}
+		}
+		best := cands[0]
+		if len(cands) > 1 {
+			// short fragments of different messages can have identical bytes: prefer the continuation of the
+			// message on the preceding TSN (DATA), then a fragment no other TSN has been matched to yet
+			found := false
+			if prev, ok := w.tsnRef[[2]uint32{uint32(from), tsn - 1}]; ok && !b && !il {
+				for _, c := range cands {
+					if c.id == prev.id && c.idx == prev.idx+1 {
+						best, found = c, true
+					}
+				}
+			}
+			if !found {
+				for _, c := range cands {
+					if !w.refUsed[[3]int{from, c.id, c.idx}] {
+						best = c
+						break
+					}
+				}
+			}
+		}
+		w.tsnRef[key] = best
+		w.refUsed[[3]int{from, best.id, best.idx}] = true
 		return best.id, best.idx
 	}
 }
@@ -466,7 +524,11 @@ func vfWrapDist(init uint32) int {
 
 func (w *vfWorld) options(i int) []AssociationOption {
 	c := w.ep[i].cfg
-	opts := []AssociationOption{WithNetConn(w.ep[i].conn), WithLoggerFactory(vfNullLoggerFactory{}),
+	var lf logging.LoggerFactory = vfNullLoggerFactory{}
+	if c.SlowLog != nil {
+		lf = vfSlowLoggerFactory{*c.SlowLog}
+	}
+	opts := []AssociationOption{WithNetConn(w.ep[i].conn), WithLoggerFactory(lf),
 		WithName([]string{"A", "B"}[i]), WithEnableInterleaving(c.IL), WithEnableZeroChecksum(c.ZC),
 		WithMTU(c.MTU), WithMaxReceiveBufferSize(c.Buf), WithMaxMessageSize(c.MaxMsg), WithBlockWrite(c.BlockWrite)}
 	if c.RTOMax != 0 {
